@@ -232,21 +232,38 @@ def work_obj(o, i=0):
         gen_s = time.time() - t0
         r = decide(job)
         if r["verdict"] == "sat" and stats.get("quantified") and not o.expect_sat:
-            # a model of the instantiated query is only a candidate: refine with more instantiation rounds
-            os.environ["PYVC_RELEVANCE"] = "0"      # the refinement uses every instance
+            # A model of the instantiated query is only a CANDIDATE (instantiation weakens the hypotheses).  Refinement
+            # ladder: the same rounds without the relevance filter, then more rounds; the first `unsat` is a proof.  A `sat`
+            # is believed only from a rung that uses every instance; if those rungs are undecided so is the obligation.
+            prev = os.environ.get("PYVC_RELEVANCE")
+            os.environ["PYVC_RELEVANCE"] = "0"
+            first, spent, cand = r, r["time_s"], None
             try:
-                smt2b, statsb = to_smt2(o.pc, o.goal, o.expect_sat, watch=o.watch, rounds=5)   # (also restores dropped hypotheses of qf_only clauses)
+                rungs = ([None] if stats.get("relevance") else []) + [5]
+                for rounds in rungs:
+                    smt2b, statsb = to_smt2(o.pc, o.goal, o.expect_sat, watch=o.watch, rounds=rounds)   # (also restores dropped hypotheses of qf_only clauses)
+                    rb = decide(dict(job, smt2=smt2b))
+                    spent += rb["time_s"]
+                    if rb["verdict"] == "unsat":
+                        rb["backend"] += "+refined"
+                        r, stats, smt2, cand = rb, statsb, smt2b, None
+                        break
+                    if rb["verdict"] == "sat":
+                        cand = (rb, statsb, smt2b)
+                else:
+                    if cand is not None:
+                        r, stats, smt2 = cand
+                    elif stats.get("relevance"):
+                        r = dict(first, verdict="unknown", model=None,
+                                 detail="candidate model only under the relevance filter; the unfiltered refinements were undecided")
+                    else:
+                        r = dict(first, detail="refinement with more instances was undecided")
             finally:
-                os.environ["PYVC_RELEVANCE"] = "1"
-            rb = decide(dict(job, smt2=smt2b))
-            rb["time_s"] += r["time_s"]
-            if rb["verdict"] == "unsat":
-                rb["backend"] += "+refined"
-                r, stats, smt2 = rb, statsb, smt2b
-            elif rb["verdict"] == "sat":
-                r, stats, smt2 = rb, statsb, smt2b
-            else:
-                r["detail"] = "refinement with more instances was undecided: " + rb.get("detail", "")
+                if prev is None:
+                    os.environ.pop("PYVC_RELEVANCE", None)
+                else:
+                    os.environ["PYVC_RELEVANCE"] = prev
+            r["time_s"] = spent
         if r["verdict"] == "unknown" and o.kind == "frame" and not o.expect_sat and z3.is_false(z3.simplify(o.goal)):
             # "this statement is reachable": decide reachability on the quantifier-free part of the path condition
             from .quant import _contains_quant
